@@ -40,21 +40,37 @@ fn line_spec(t: &[&str], i: usize) -> (Line, usize) {
     }
 }
 
-fn show_cl(r: CircleLineIntersection) -> String {
-    match r {
-        CircleLineIntersection::None => "N".to_string(),
-        CircleLineIntersection::Touch(p) => format!("T {}", pt(&p)),
-        CircleLineIntersection::Intersect(p, q) => format!("I {} {}", pt(&p), pt(&q)),
+/// the points as the IntoIterator impl of the result type reports them; when they are not the points of the variant
+/// (same number, same order, same bits) the iterator's view is what gets printed, so the disagreement is visible
+fn same_points(a: &[Point], b: &[Point]) -> bool {
+    a.len() == b.len() && a.iter().zip(b).all(|(p, q)| p.x.to_bits() == q.x.to_bits() && p.y.to_bits() == q.y.to_bits())
+}
+fn by_count(tag1: &str, it: &[Point]) -> String {
+    match it.len() {
+        0 => "N".to_string(),
+        1 => format!("{} {}", tag1, pt(&it[0])),
+        _ => format!("I {} {}", pt(&it[0]), pt(&it[1])),
     }
 }
+fn show_cl(r: CircleLineIntersection) -> String {
+    let (s, pts) = match &r {
+        CircleLineIntersection::None => ("N".to_string(), vec![]),
+        CircleLineIntersection::Touch(p) => (format!("T {}", pt(p)), vec![*p]),
+        CircleLineIntersection::Intersect(p, q) => (format!("I {} {}", pt(p), pt(q)), vec![*p, *q]),
+    };
+    let it: Vec<Point> = r.into_iter().collect();
+    if same_points(&pts, &it) { s } else { by_count("T", &it) }
+}
 fn show_cc(r: CircleIntersection) -> String {
-    match r {
-        CircleIntersection::None => "N".to_string(),
-        CircleIntersection::Same => "E".to_string(),
-        CircleIntersection::TouchInside(p) => format!("TI {}", pt(&p)),
-        CircleIntersection::TouchOutside(p) => format!("TO {}", pt(&p)),
-        CircleIntersection::Intersect(p, q) => format!("I {} {}", pt(&p), pt(&q)),
-    }
+    let (s, pts, tag1) = match &r {
+        CircleIntersection::None => ("N".to_string(), vec![], "TO"),
+        CircleIntersection::Same => ("E".to_string(), vec![], "TO"),
+        CircleIntersection::TouchInside(p) => (format!("TI {}", pt(p)), vec![*p], "TI"),
+        CircleIntersection::TouchOutside(p) => (format!("TO {}", pt(p)), vec![*p], "TO"),
+        CircleIntersection::Intersect(p, q) => (format!("I {} {}", pt(p), pt(q)), vec![*p, *q], "TO"),
+    };
+    let it: Vec<Point> = r.into_iter().collect();
+    if same_points(&pts, &it) { s } else { by_count(tag1, &it) }
 }
 
 // ------------------------------------------------------------------ implementation-level search
